@@ -244,6 +244,112 @@ theorem restartStep_exact (step next0 sk : Nat) (ts1 ts2 : List Nat)
 theorem wall_restart_fires (d w : Int) : (hbWall intOps d (armWall d w).2 w).1 = true := by
   simp [armWall, hbWall_int]
 
+/-! ### repaired heartbeat: no hypothesis on the step length -/
+theorem hbR_int (s d next t : Int) (hs : s = 1 ∨ s = -1) (hd : 0 < d) :
+    hbR intOpsR s d next t =
+      if s * next ≤ s * t then
+        (true, if s * (next + s * d) ≤ s * t then next + s * d + s * ((s * (t - (next + s * d))) / d + 1) * d else next + s * d)
+      else (false, next) := by
+  have hdiv : ∀ x : Int, 0 ≤ x → d * (x / d) ≤ x ∧ x < d * (x / d) + d := by
+    intro x hx
+    have h1 := Int.mul_ediv_add_emod x d
+    have h2 := Int.emod_nonneg x (by omega : d ≠ 0)
+    have h3 := Int.emod_lt_of_pos x hd
+    constructor <;> omega
+  simp only [hbR, intOpsR, intOps]
+  by_cases h : s * next ≤ s * t
+  · simp only [h, decide_true, if_true]
+    by_cases h1 : s * (next + s * d) ≤ s * t
+    · simp only [h1, decide_true, hd, Bool.and_self, if_true]
+      -- the rounding branch is dead on integers
+      have hx : 0 ≤ s * (t - (next + s * d)) := by rcases hs with rfl | rfl <;> omega
+      obtain ⟨q, hq, ha, hb⟩ : ∃ q, (s * (t - (next + s * d))) / d = q ∧ d * q ≤ s * (t - (next + s * d)) ∧ s * (t - (next + s * d)) < d * q + d :=
+        ⟨_, rfl, (hdiv _ hx).1, (hdiv _ hx).2⟩
+      simp only [hq]
+      have hq2 : d * q + d = (q + 1) * d := by rw [Int.add_mul, Int.mul_comm]; omega
+      have key : ¬ (s * (next + s * d + s * (q + 1) * d) ≤ s * t) := by
+        have e : s * (next + s * d + s * (q + 1) * d) = s * (next + s * d) + (s * s) * ((q + 1) * d) := by
+          rw [Int.mul_add, Int.mul_assoc s (q + 1) d, ← Int.mul_assoc s s]
+        have ss : s * s = 1 := by rcases hs with rfl | rfl <;> rfl
+        rw [e, ss, Int.one_mul]
+        have : s * (t - (next + s * d)) = s * t - s * (next + s * d) := by rw [Int.mul_sub]
+        omega
+      simp [key]
+    · simp [h1]
+  · simp [h]
+
+/-- after the repaired heartbeat wrote a snapshot the prescribed time is strictly ahead of `t` and at most one
+    interval ahead: the following prescribed time of the grid `next0 + k·interval` -/
+theorem hbR_next_ahead (s d next t : Int) (hs : s = 1 ∨ s = -1) (hd : 0 < d) (hfire : s * next ≤ s * t) :
+    s * t < s * (hbR intOpsR s d next t).2 ∧ s * (hbR intOpsR s d next t).2 ≤ s * t + d := by
+  have hdiv : ∀ x : Int, 0 ≤ x → d * (x / d) ≤ x ∧ x < d * (x / d) + d := by
+    intro x hx
+    have h1 := Int.mul_ediv_add_emod x d
+    have h2 := Int.emod_nonneg x (by omega : d ≠ 0)
+    have h3 := Int.emod_lt_of_pos x hd
+    constructor <;> omega
+  rw [hbR_int s d next t hs hd]
+  simp only [hfire, if_true]
+  have ss : s * s = 1 := by rcases hs with rfl | rfl <;> rfl
+  by_cases h1 : s * (next + s * d) ≤ s * t
+  · simp only [h1, if_true]
+    have hx : 0 ≤ s * (t - (next + s * d)) := by rw [Int.mul_sub]; omega
+    obtain ⟨q, hq, ha, hb⟩ : ∃ q, (s * (t - (next + s * d))) / d = q ∧ d * q ≤ s * (t - (next + s * d)) ∧ s * (t - (next + s * d)) < d * q + d :=
+      ⟨_, rfl, (hdiv _ hx).1, (hdiv _ hx).2⟩
+    simp only [hq]
+    have e : s * (next + s * d + s * (q + 1) * d) = s * (next + s * d) + (q + 1) * d := by
+      rw [Int.mul_add, Int.mul_assoc s (q + 1) d, ← Int.mul_assoc s s, ss, Int.one_mul]
+    have hq2 : d * q + d = (q + 1) * d := by rw [Int.add_mul, Int.mul_comm]; omega
+    have : s * (t - (next + s * d)) = s * t - s * (next + s * d) := by rw [Int.mul_sub]
+    rw [e]; constructor <;> omega
+  · simp only [h1, if_false]
+    have e : s * (next + s * d) = s * next + d := by rw [Int.mul_add, ← Int.mul_assoc, ss, Int.one_mul]
+    constructor <;> omega
+
+/-- when the step is not longer than the interval past the prescribed time, the repaired heartbeat is the pinned one
+    (so `cadence_exact` holds for it unchanged) -/
+theorem hbR_eq_hb (s d next t : Int) (hs : s = 1 ∨ s = -1) (hd : 0 < d) (hnl : s * t < s * next + d) :
+    hbR intOpsR s d next t = hb intOps s d next t := by
+  rw [hbR_int s d next t hs hd, hb_int]
+  have : ¬ (s * (next + s * d) ≤ s * t) := by rcases hs with rfl | rfl <;> omega
+  simp [this]
+
+/-- the repaired heartbeat never writes twice at the same time, whatever the ratio of step and interval -/
+theorem hbR_no_refire (s d next t : Int) (hs : s = 1 ∨ s = -1) (hd : 0 < d) (hfire : s * next ≤ s * t) :
+    (hbR intOpsR s d (hbR intOpsR s d next t).2 t) = (false, (hbR intOpsR s d next t).2) := by
+  have h := (hbR_next_ahead s d next t hs hd hfire).1
+  rw [hbR_int s d _ t hs hd]
+  have : ¬ (s * (hbR intOpsR s d next t).2 ≤ s * t) := by omega
+  simp [this]
+
+theorem runR_cons (s d next t : Int) (r : List Int) :
+    runR intOpsR s d next (t :: r) =
+      ((hbR intOpsR s d next t).1 :: (runR intOpsR s d (hbR intOpsR s d next t).2 r).1,
+       (runR intOpsR s d (hbR intOpsR s d next t).2 r).2) := rfl
+
+theorem runR_append (s d next : Int) (a b : List Int) :
+    runR intOpsR s d next (a ++ b) =
+      ((runR intOpsR s d next a).1 ++ (runR intOpsR s d (runR intOpsR s d next a).2 b).1,
+       (runR intOpsR s d (runR intOpsR s d next a).2 b).2) := by
+  induction a generalizing next with
+  | nil => simp [runR]
+  | cons t r ih => simp only [List.cons_append, runR_cons, ih]
+
+/-- **restart neither skips nor duplicates, repaired source, every step length**: no `hnl` hypothesis -/
+theorem restartR_exact (s d next0 t : Int) (ts1 ts2 : List Int) (hs : s = 1 ∨ s = -1) (hd : 0 < d)
+    (hfire : s * (runR intOpsR s d next0 ts1).2 ≤ s * t) :
+    let n1 := (hbR intOpsR s d (runR intOpsR s d next0 ts1).2 t).2
+    let rest := runR intOpsR s d n1 ts2
+    runR intOpsR s d next0 (ts1 ++ t :: ts2) = ((runR intOpsR s d next0 ts1).1 ++ true :: rest.1, rest.2) ∧
+    restartR intOpsR intNe s d n1 d t ts2 = (false :: rest.1, rest.2) := by
+  intro n1 rest
+  have hf : (hbR intOpsR s d (runR intOpsR s d next0 ts1).2 t).1 = true := by
+    rw [hbR_int s d _ t hs hd]; simp [hfire]
+  constructor
+  · rw [runR_append, runR_cons, hf]
+  · simp only [restartR, arm_same]
+    rw [runR_cons, hbR_no_refire s d _ t hs hd hfire]
+
 /-- the index arrays are always large enough: slot `i` exists when iteration `i` writes it, and the loop
     bound `i < nblobsmax` never ends the walk -/
 theorem cap_ok (i : Nat) : i < capAt i := by
